@@ -315,7 +315,7 @@ def _cs_subset_subroutines(charstring, subrs, gsubrs):
             )
 
 
-def _cs_drop_hints(charstring):
+def _cs_drop_hints(charstring, isCFF2=False):
     hints = charstring._hints
 
     if hints.deletions:
@@ -330,8 +330,9 @@ def _cs_drop_hints(charstring):
             # a leading 'n vsindex' is not a hint: it selects the variation data
             keep = charstring.program[:2]
         charstring.program = keep + charstring.program[hints.last_hint :]
-        if not charstring.program:
-            # TODO CFF2 no need for endchar.
+        if not charstring.program and not isCFF2:
+            # CFF2 has no endchar; there an emptied charstring or subroutine
+            # (which has no return either) simply stays empty.
             charstring.program.append("endchar")
         if hasattr(charstring, "width"):
             # Insert width back if needed
@@ -354,7 +355,7 @@ def _cs_drop_hints(charstring):
                 continue
             i += 1
 
-    assert len(charstring.program)
+    assert isCFF2 or len(charstring.program)
 
     del charstring._hints
 
@@ -393,7 +394,7 @@ def remove_hints(cff, *, removeUnusedSubrs: bool = True):
             decompiler.execute(c)
             c.width = decompiler.width
         for charstring in css:
-            _cs_drop_hints(charstring)
+            _cs_drop_hints(charstring, isCFF2=cff.major > 1)
         del css
 
         # Drop font-wide hinting values
